@@ -72,7 +72,9 @@ func main() {
 // ---------------------------------------------------------------- worker
 
 func worker() {
-	debug.SetMaxStack(4 << 20)
+	// Unbounded recursion must end in Go's fatal stack overflow within seconds, but a *bounded* recursion a few
+	// thousand levels deep is legitimate (an include level costs about 4 KiB of stack): 64 MiB instead of Go's 1 GB.
+	debug.SetMaxStack(64 << 20)
 	debug.SetGCPercent(200)
 	in := bufio.NewReaderSize(os.Stdin, 1<<20)
 	out := bufio.NewWriter(os.Stdout)
@@ -129,9 +131,9 @@ func worker() {
 // would otherwise take the machine down; the sandbox has no memory limit). The supervisor attributes the death
 // to the announced run and classifies it from the marker line.
 func memoryWatchdog() {
-	limit := uint64(512 << 20)
+	limit := uint64(1536 << 20)
 	if simrt.RaceEnabled {
-		limit = 2 << 30
+		limit = 3 << 30
 	}
 	samples := []metrics.Sample{{Name: "/memory/classes/heap/objects:bytes"}}
 	for {
